@@ -1,4 +1,6 @@
 import GaleneVerif.Model.Api
+import GaleneVerif.Model.ReadVersion
+import GaleneVerif.Model.WriteFault
 import GaleneVerif.Engine.Common
 /-
 Engine `api` (C17, C18 exclusivity/atomicity, C12-HTTP).  See harness/cmd/api/*.go
@@ -16,6 +18,16 @@ for the symbolic wire format.  Ops:
   setpw <group> <user> <pw> | setkeys <group> <keys|->    => ok|mismatch|notexist|notauth|err chg=…
   crashrun <syscall> <i>                         => old|new|… killed=<0|1> strays=<n>
   race <writers> <rounds>                        => ok | bad:<what happened>   (real goroutines, real handler)
+  freq <fs0|fs1|fs100> <method> … (as req)       => <status|crash> e=… b=… sec=… data=… strays=<n> chg=…
+        the request while write(2) to regular files fails beyond 0/1/100 bytes (RLIMIT_FSIZE)
+  live <group>                                   => ok|notexist|err            (group.Add: the group is in memory)
+  readrace <scenario>                            => content=<A|B|?> tag=<A|B|?>
+        one group.GetDescription stopped (SIGSTOP injected by strace) with the definition file open, the file
+        replaced by rename meanwhile: whose content and whose tag does it return
+  readcalls <scenario>                           => pstat:<p> open:<p>:<fd> fstat:<fd> read:<fd> close:<fd> …
+        the calls of one group.GetDescription that touch the definition file (strace)
+  faultcalls <scenario>                          => <ok|failed> <old|new|partial:…|missing> <calls…>
+        the calls of one rewriteDescriptionFile whose write or fsync fails (strace)
 
 The model side replays every op through `Galene.Api` and compares the complete
 result line.  The oracle side keeps its own copy of what is on disk, fed only
@@ -287,6 +299,11 @@ def showBody : Body → String
         t.user.map fun u => "\"username\":" ++ q u ]
   | .stats => "json:[]"
 
+/-- `.stats` lists the groups that are in memory (stats.GetGroups; no clients here), sorted by name -/
+def showBodyL (live : List String) : Body → String
+  | .stats => "json:[" ++ ",".intercalate (live.map fun n => "{\"name\":" ++ q n ++ "}") ++ "]"
+  | b => showBody b
+
 def showTag : Option Nat → String
   | none => "-"
   | some k => s!"t{k}"
@@ -306,10 +323,10 @@ def showChanges (a b : State) : String :=
   let all := conf ++ toks ++ changed ++ gone
   "chg=" ++ (if all.isEmpty then "-" else "|".intercalate all)
 
-def showOutcome (o : Outcome) (a b : State) (secData : String) : String :=
+def showOutcome (o : Outcome) (a b : State) (secData : String) (live : List String := []) : String :=
   match o with
   | .crash => s!"crash e=- b=empty {secData} {showChanges a b}"
-  | .resp r => s!"{r.status} e={showTag r.etag} b={showBody r.body} {secData} {showChanges a b}"
+  | .resp r => s!"{r.status} e={showTag r.etag} b={showBodyL live r.body} {secData} {showChanges a b}"
 
 def showErr : Except Err State → String
   | .ok _ => "ok"
@@ -708,12 +725,162 @@ def phase2Oracle (o : Orc) (name : String) (slot : String) (t : Target) (conditi
       (o'', v)
   | _ => (o, .badop "phase-2 result")
 
+/-! ### Requests under a write fault: what C17/C18 demand of them -/
+
+/-- the `g:` items of a `chg=` token whose content is not a definition (`notjson`, `badfield:…`, …) -/
+def unparsable (tok : String) : List String :=
+  let body := (tok.drop 4).toString
+  if body = "-" then []
+  else (body.splitOn "|").filter fun it =>
+    match it.splitOn "=" with
+    | lab :: rest =>
+      let content := "=".intercalate rest
+      lab.startsWith "g:" && content ≠ "gone" && (parseDesc content).isNone
+    | [] => false
+
+/-- Is what an acknowledged update left in the file what the request asked for, as far as the
+request says it (the rest of the file is `preserved`'s business)?  `some what` if not.
+Only for the plain request bodies of the generator; anything else is not judged. -/
+def requested (t : Target) (m : Method) (body : ReqBody) (after : Option GroupFile) : Option String :=
+  match t, m, body with
+  | .group _, .DELETE, _ => if after.isSome then some "the definition is still there" else none
+  | .group _, .PUT, .desc d =>
+    if d.hasUsers || d.hasWildcard || d.hasKeys || !d.legacy.isEmpty then none
+    else match after with
+      | none => some "there is no definition"
+      | some f => if f.desc.content = d.content && f.desc.autoSub = d.autoSub then none
+                  else some s!"the definition holds c{f.desc.content};a{b2s f.desc.autoSub}"
+  | .user _ w, .DELETE, _ =>
+    (match after.bind (·.desc.getUser w) with
+     | some _ => some "the user is still there"
+     | none => none)
+  | .user _ w, .PUT, .user u =>
+    (match after.bind (·.desc.getUser w) with
+     | some x => if x.perms = u.perms then none else some s!"the user's permissions are {showPerm x.perms}"
+     | none => some "the user is not there")
+  | .password _ w, meth, b =>
+    let want : Option Password := match meth, b with
+      | .PUT, .pw p => some p
+      | .POST, .text id => some (.hashed "b" id)
+      | .DELETE, _ => some .absent
+      | _, _ => none
+    (match want, after.bind (·.desc.getUser w) with
+     | some p, some x => if x.password = p then none else some s!"the stored password is {showPw x.password}"
+     | some _, none => some "the user is not there"
+     | none, _ => none)
+  | .keys _, .PUT, .keys ks =>
+    (match after with
+     | some f => if f.desc.keys = ks.getD [] then none else some s!"the stored keys are {showKeys f.desc.keys}"
+     | none => some "there is no definition")
+  | .keys _, .DELETE, _ =>
+    (match after with
+     | some f => if f.desc.keys = [] then none else some s!"the stored keys are {showKeys f.desc.keys}"
+     | none => some "there is no definition")
+  | _, _, _ => none
+
+/-- the oracle for one request made while writes fail: the three statements below, then everything
+`reqOracle` demands of any request -/
+def faultOracle (o : Orc) (fault : String) (method : Method) (methodName path : String) (c : Cred) (im inm : List HItem)
+    (body : ReqBody) (impl : List String) : Orc × Verdict :=
+  match impl with
+  | [status, e, b, sec, data, _strays, chg] =>
+    let ok2xx := status.startsWith "2"
+    let changed := !(chgLabels chg).isEmpty
+    match unparsable chg with
+    | it :: _ =>
+      (o, .oracle s!"C17,C18: {methodName} {path} while writes to the definition file fail ({fault}) was answered {status} and left a file that is neither the old nor the requested new definition (a partial write was published; the stored users and keys are lost): {it}")
+    | [] =>
+      if !ok2xx && status ≠ "crash" && changed then
+        (o, .oracle s!"C17,C18: {methodName} {path} while writes fail ({fault}) was answered {status} (not acknowledged) but changed {chg}")
+      else
+        let (o', v) := reqOracle o method path c im inm [status, e, b, sec, data, chg]
+        match v with
+        | .ok =>
+          let t := target path
+          let g := norm t.groupName
+          -- an acknowledged update is in the file afterwards (whether or not the file changed)
+          if ok2xx && isWrite method then
+            match requested t method body (lookup g o'.groups) with
+            | some what => (o', .oracle s!"C18: {methodName} {path} ({fault}) was acknowledged ({status}) but the definition file does not hold what was requested (the acknowledged update is lost, or the file is neither the old nor the requested new definition): {what}; {chg}")
+            | none => (o', .ok)
+          else (o', .ok)
+        | x => (o', x)
+  | _ => (o, .badop "freq result")
+
+/-! ### System-call shapes captured with strace (ops `readcalls`, `faultcalls`) -/
+
+def parseReadCall (x : String) : Option ReadVersion.Call :=
+  match x.splitOn ":" with
+  | ["pstat", p] => some (.pathStat p)
+  | ["open", p, fd] => (nat? fd).map (.openAt p)
+  | ["fstat", fd] => (nat? fd).map .fstat
+  | ["read", fd] => (nat? fd).map .read
+  | ["close", fd] => (nat? fd).map .close
+  | _ => none
+
+open Galene.SafeReplaceDesc in
+def parseFaultCall (x : String) : Option WriteFault.Call :=
+  match x.splitOn ":" with
+  | ["mkdir", p] => some (.ok (.mkdir p))
+  | ["openRead", p, fd] => (nat? fd).map fun d => .ok (.openRead p d)
+  | ["createExcl", p, fd] => (nat? fd).map fun d => .ok (.createExcl p d)
+  | ["createExcl!", p, e] => some (.failed (.createExcl p 0) e)
+  | ["openWrite", p, fd] => (nat? fd).map fun d => .ok (.openWrite p d)
+  | ["write", fd, n] => (nat? fd).bind fun d => (nat? n).map fun k => .ok (.write d k)
+  | ["write!", fd, n, e] => (nat? fd).bind fun d => (nat? n).map fun k => .failed (.write d k) e
+  | ["fsync", fd] => (nat? fd).map fun d => .ok (.fsync d)
+  | ["fsync!", fd, e] => (nat? fd).map fun d => .failed (.fsync d) e
+  | ["close", fd] => (nat? fd).map fun d => .ok (.close d)
+  | ["close!", fd, e] => (nat? fd).map fun d => .failed (.close d) e
+  | ["rename", a, b] => some (.ok (.rename a b))
+  | ["rename!", a, b, e] => some (.failed (.rename a b) e)
+  | ["unlink", p] => some (.ok (.unlink p))
+  | ["other", n] => some (.ok (.other n))
+  | _ => none
+
+/-- the definition file of the capture helpers (harness/cmd/api/faults.go `rwTarget`) -/
+def captureTarget : String := "groups/grpC.json"
+
+def readCallsVerdict (sc : String) (impl : List String) : Verdict :=
+  if impl.head?.any (·.startsWith "err:") then .badop s!"read-path capture unavailable: {impl}"
+  else match impl.mapM parseReadCall with
+    | none => .badop s!"readcalls: cannot parse {impl}"
+    | some cs =>
+      if ReadVersion.readShapeOK captureTarget cs then .ok
+      else if ReadVersion.pathStatAfterOpen captureTarget cs then
+        .oracle s!"C18: group.GetDescription ({sc}) takes the size and modification time of the definition file (the source of the entity tag and of the running server's cache validator) with a path-based stat AFTER opening the file: when the file is replaced (rename) between the open and that stat, the old content is returned under the new version's tag, If-Match with it succeeds although the definition changed; calls touching the file: {" ".intercalate impl}"
+      else
+        .oracle s!"C18: the calls by which group.GetDescription ({sc}) reads the definition file do not have the shape open, fstat on that descriptor, read (size and modification time must come from the descriptor the content is read from; one open): {" ".intercalate impl}"
+
+def faultCallsVerdict (sc : String) (impl : List String) : Verdict :=
+  match impl with
+  | rep :: state :: calls =>
+    if rep.startsWith "err:" then .badop s!"write-fault capture unavailable: {impl}"
+    else match calls.mapM parseFaultCall with
+      | none => .badop s!"faultcalls: cannot parse {impl}"
+      | some cs =>
+        let shown := " ".intercalate calls
+        if !WriteFault.hasFailure cs then .badop s!"faultcalls {sc}: no write or fsync failed in the capture: {shown}"
+        else if state.startsWith "partial" || state = "missing" then
+          .oracle s!"C17,C18: after a rewriteDescriptionFile whose write/fsync failed ({sc}; it reported {rep}) the definition file is {state}, neither the complete old nor the complete new definition; calls: {shown}"
+        else if rep = "failed" && state ≠ "old" then
+          .oracle s!"C17,C18: rewriteDescriptionFile reported failure ({sc}) but the definition file holds the {state} definition; calls: {shown}"
+        else if rep = "ok" && state ≠ "new" then
+          .oracle s!"C18: rewriteDescriptionFile reported success ({sc}) but the definition file holds the {state} definition; calls: {shown}"
+        else if WriteFault.renameAfterFailure captureTarget cs then
+          .oracle s!"C18: rewriteDescriptionFile ({sc}) renames the temporary file over the definition file after a failed write/fsync (the error is ignored): {shown}"
+        else if !WriteFault.faultShapeOK captureTarget cs then
+          .oracle s!"C18: a rewriteDescriptionFile whose write/fsync failed ({sc}) makes calls that can change the definition file: {shown}"
+        else .ok
+  | _ => .badop s!"faultcalls result: {impl}"
+
 /-! ### The engine -/
 
 structure St where
   m : State := {}
   o : Orc := {}
   slots : List (String × Option Nat) := []     -- model side: slot → tag
+  live : List (String × Cached) := []          -- groups in memory (op `live`): name ↦ what the group cached, sorted
 
 def join (l : List String) : String := " ".intercalate l
 
@@ -788,7 +955,7 @@ def step (st : St) (op impl : List String) : St × Verdict :=
       let secData := match impl with
         | [_, _, _, sec, data, _] => sec ++ " " ++ data
         | _ => "sec=? data=?"
-      let v := cmp (showOutcome out st.m m' secData) impl
+      let v := cmp (showOutcome out st.m m' secData (st.live.map (·.1))) impl
       let (o', ov) := reqOracle st.o r.method path c imh inmh impl
       ({ st with m := m', o := o' }, withOracle v ov)
     | _, _, _, _, _ => (st, .badop "req")
@@ -832,6 +999,46 @@ def step (st : St) (op impl : List String) : St × Verdict :=
       else if x.startsWith "env:" then (st, .ok)
       else (st, .badop s!"race2: {x}")
     | _ => (st, .badop "race2 result")
+  | ["freq", fault, method, path, cred, ctype, im, inm, body] =>
+    let limit : Option Nat := if fault = "fs0" then some 0 else if fault = "fs1" then some 1 else if fault = "fs100" then some 100 else none
+    match limit, parseCred cred, parseCType ctype, parseHdr im, parseHdr inm, parseBody body with
+    | some lim, some c, some ct, some imh, some inmh, some b =>
+      let r : Request := { method := parseMethod method, path := path, cred := c, ctype := ct,
+                           ifMatch := imh, ifNoneMatch := inmh, body := b }
+      let (outN, mN) := handle currentFixes st.m r
+      if mN.tokens ≠ st.m.tokens || mN.tokVer ≠ st.m.tokVer then
+        (st, .badop "freq: a request that rewrites the token file is not modelled under a fault (engine store, C16)")
+      else
+        let (outF, mF) := handleFault currentFixes st.m r
+        let obs := match impl with
+          | [_, _, _, sec, data, strays, _] => sec ++ " " ++ data ++ " " ++ strays
+          | _ => "sec=? data=? strays=?"
+        let lineN := showOutcome outN st.m mN obs (st.live.map (·.1))
+        let lineF := showOutcome outF st.m mF obs (st.live.map (·.1))
+        let (v, m') : Verdict × State := match faultBites lim st.m mN with
+          | some true => (cmp lineF impl, mF)
+          | some false => (cmp lineN impl, mN)
+          | none => if lineF = " ".intercalate impl then (.ok, mF) else (cmp lineN impl, mN)
+        let (o', ov) := faultOracle st.o fault r.method method path c imh inmh b impl
+        ({ st with m := m', o := o' }, withOracle v ov)
+    | _, _, _, _, _, _ => (st, .badop "freq")
+  | ["live", name] =>
+    if name = "" || fileKey name ≠ name then (st, cmp "err" impl)       -- validGroupName
+    else
+      let (ok, live') := addLive st.live st.m name
+      ({ st with live := live' }, cmp (if ok then "ok" else "notexist") impl)
+  | ["readcalls", sc] => (st, readCallsVerdict sc impl)
+  | ["readrace", sc] =>
+    match impl with
+    | [c, t] =>
+      if !(c.startsWith "content=" && t.startsWith "tag=") then (st, .badop s!"readrace: {impl}")
+      else
+        let cv := (c.drop 8).toString
+        let tv := (t.drop 4).toString
+        if cv = tv && (cv = "A" || cv = "B") then (st, .ok)
+        else (st, .oracle s!"C18: group.GetDescription ({sc}) whose definition file was replaced (rename: version A by version B) while the reader had it open returned the content of version {cv} with the size/mtime (entity tag, cache validator) of version {tv}: the tag does not identify the served content, If-Match with it succeeds although the client never saw that version")
+    | _ => (st, .badop s!"read-race injection unavailable: {impl}")
+  | ["faultcalls", sc] => (st, faultCallsVerdict sc impl)
   | ["crashrun", name, i] =>
     match impl with
     | state :: _ =>
